@@ -85,7 +85,13 @@ def closed_input_set():
                  "module s; sub #(.P(a ? 1 : 2)) u (.x(a ? b : c)); endmodule\n", "module s; function int f(int a); return a ? 1 : 0; endfunction endmodule\n",
                  "class s; function new(); x = a ? b : c; endfunction endclass\n", "module s; initial x = a inside {1, [2:3]} ? b : c; endmodule\n",
                  "module s; initial x = (a ? b : c) ? d : e; endmodule\n", "module s; initial begin x = a ? b : c; y = d ? e : f; end endmodule\n",
-                 "module s; assign y = a && b ? c | d : e ^ f; endmodule\n"]
+                 "module s; assign y = a && b ? c | d : e ^ f; endmodule\n",
+                 # set membership as the left part of a larger expression in a constraint / a property (round-4 seeded change)
+                 "class s; rand int a, b; constraint k { a inside {1, 2} -> b == 1; } endclass\n",
+                 "class s; rand int a, b; constraint k { a inside {[1:3]} && b > 0; } endclass\n",
+                 "module s; property p; a inside {0, 1} |-> b; endproperty assert property (@(posedge c) a inside {0, 1} |-> b); endmodule\n",
+                 "module s; initial if (a inside {1, [2:3]} && b) x = 1; endmodule\n",
+                 "module s; initial x = a inside {1, 2} ? b inside {3} : c; endmodule\n"]
     for t in sweep_txt:
         ins.append(("sv", t, "capsweep"))
     # deterministic order, duplicates removed
